@@ -722,6 +722,8 @@ class DAG(BaseDAG[P, RVDAG]):
                 stub: LazyExecNode[[UsageExecNode], UsageExecNode] = LazyExecNode(
                     id_=uxn.id,
                     exec_function=lambda x: x,
+                    # like ArgExecNode and ReturnExecNode: a hidden node must not inherit TAWAZI_IS_SEQUENTIAL
+                    is_sequential=False,
                     resource=consts.Resource.main_thread,
                     args=[axn],
                     # during subdag construction,
